@@ -47,7 +47,7 @@ func init() {
 		Assumptions: []string{"Get only for i < words(s); ToStr only on in-range word values; from >= 0; end = -1 or >= 0"},
 		Flavours:    releaseAnd386,
 		Required: []string{"w=1", "w=2", "w=4", "w=8", "tostr/partial-last-byte", "tostr/empty", "firstdiff/end=-1", "firstdiff/from>=lim", "firstdiff/end-beyond-shorter", "firstdiff/found", "firstdiff/none",
-			"firstdiff/prefix-pair", "firstdiff/end>=MaxInt/8", "strs/empty-list", "strs/append-to-element", "strs/batch>=4096", "strs/tostrs-partial-byte-element-not-last", "byte>=0x80", "len>=300", "tostr/long-result-retained"},
+			"firstdiff/prefix-pair", "firstdiff/end>=MaxInt/8", "strs/empty-list", "strs/append-to-element", "strs/batch>=4096", "strs/tostrs-partial-byte-element-not-last", "strs/tostrs-overlapping-views", "byte>=0x80", "len>=300", "tostr/long-result-retained"},
 		Families: func(c *mon.Config) []mon.Family {
 			return []mon.Family{
 				{Name: "one-two-byte", N: 4 * 257, Run: c08Enum},
@@ -193,9 +193,15 @@ func c08ToStr(w *mon.W, idx int) {
 	in := append([]byte(nil), words...)
 	bw := bitword.BitWord[n]
 	w.Op, w.A, w.B = "ToStr", int64(n), int64(l)
+	// the argument is a view into a larger array (a prefix of a longer word slice): what lies beyond len is not ours
+	words, guard := dirtyB(words)
 	got := bw.ToStr(words)
 	exp := c08Pack(in, n)
 	w.Eval(1)
+	if !guard() {
+		w.Fail("ToStr/wrote-outside-len-of-argument", mon.D{"width": n, "words": in, "what": "the poison before the argument or between its len and cap was overwritten"})
+		return
+	}
 	if got != exp {
 		w.Fail(fmt.Sprintf("ToStr/pack/w=%d", n), mon.D{"width": n, "words": in, "got": fmt.Sprintf("%q", got), "expected": fmt.Sprintf("%q", exp)})
 		return
@@ -328,7 +334,12 @@ func c08Strs(w *mon.W, idx int) {
 		w.Bucket("strs/empty-list")
 	}
 	w.Op, w.A = "FromStrs", int64(n)
-	ws := bw.FromStrs(strs)
+	qStrs, gStrs := dirtyStrs(strs) // the list as a view into a larger array
+	ws := bw.FromStrs(qStrs)
+	if !gStrs() {
+		w.Fail("FromStrs/wrote-outside-len-of-argument", mon.D{"width": n, "nstrs": len(strs)})
+		return
+	}
 	if len(ws) != k {
 		w.Fail("FromStrs/len", mon.D{"width": n, "strs": fmt.Sprintf("%q", strs), "got": len(ws)})
 		return
@@ -375,8 +386,37 @@ func c08Strs(w *mon.W, idx int) {
 				partial = true
 			}
 		}
+		// every third batch: the elements are overlapping prefix views of ONE word slice (len < cap)
+		var whole, whole0 []byte
+		if idx%3 == 0 && m <= 64 {
+			whole = make([]byte, 24)
+			for j := range whole {
+				whole[j] = byte(r.Intn(1 << uint(n)))
+			}
+			whole0 = append([]byte(nil), whole...)
+			for i := range raw {
+				raw[i] = whole[:r.Intn(21)]
+				exp[i] = c08Pack(raw[i], n)
+			}
+			w.Bucket("strs/tostrs-overlapping-views")
+		}
 		w.Op = "ToStrs(raw words)"
-		got := bw.ToStrs(raw)
+		// the batch itself as a view into a larger array of slices
+		outer := make([][]byte, len(raw)+3)
+		sentinel := []byte{poisonB}
+		for i := range outer {
+			outer[i] = sentinel
+		}
+		copy(outer[1:], raw)
+		got := bw.ToStrs(outer[1 : 1+len(raw) : len(raw)+2])
+		if len(outer[0]) != 1 || len(outer[1+len(raw)]) != 1 || len(outer[2+len(raw)]) != 1 || &outer[0][0] != &sentinel[0] || &outer[1+len(raw)][0] != &sentinel[0] {
+			w.Fail("ToStrs/wrote-outside-len-of-argument", mon.D{"width": n, "elements": len(raw)})
+			return
+		}
+		if string(whole) != string(whole0) {
+			w.Fail("ToStrs/wrote-outside-len-of-element", mon.D{"width": n, "before": whole0, "after": whole, "what": "the elements are prefix views of one word slice; words beyond an element's len changed"})
+			return
+		}
 		w.Eval(1)
 		if len(got) != m {
 			w.Fail("ToStrs/len", mon.D{"width": n, "elements": m, "got": len(got)})
